@@ -438,6 +438,15 @@ def work_abort(p):
         except Exception as e:
             raised = e
         store.conn.set_progress_handler(None, 1)
+        retried = False
+        if raised is not None and p.get("retry") and step % 2 == 0:
+            # the caller retries the same batch through the same store object (CallTraceStoreLogger.flush keeps its traces)
+            try:
+                store.add([mk_trace(*s) for s in batch_specs("B", size, bad_at=p.get("bad_at"))])
+                retried = True
+                res.count("retries_after_abort")
+            except Exception as e:
+                res.violation(f"retry-add-raises:{type(e).__name__}", f"retry after abort at VM step {step} raised {e!r}", {"step": step})
         res.count("evaluations")
         res.count("abort_points")
         nser = size - (1 if p.get("bad_at") is not None else 0)
@@ -457,9 +466,15 @@ def work_abort(p):
                 res.count("raised_but_committed")
         if c.get("A", 0) != 3:
             res.violation("committed-batch-lost", f"batch A has {c.get('A', 0)}/3 rows after aborted add at VM step {step}", {"step": step})
-        if nb not in (0, nser):
+        distinct_b = len({r for r in sqlite3.connect(path).execute("SELECT qualname FROM monkeytype_call_traces WHERE qualname LIKE 'B.%'")})
+        if retried:
+            if distinct_b != nser:
+                res.violation("acknowledged-retry-not-committed", f"abort at VM step {step}, then add() of the same batch returned: {distinct_b}/{nser} distinct rows present", {"step": step})
+        elif nb not in (0, nser):
             res.violation("batch-partially-committed", f"abort at VM step {step}: {nb}/{nser} rows of the batch committed", {"step": step, "size": size})
             res.count("partial")
+        if retried:
+            continue
         if raised is None and nb != nser:
             res.violation("acknowledged-batch-not-fully-committed", f"add returned, {nb}/{nser} rows", {"step": step})
         if seen is not None and seen != nb:
@@ -664,7 +679,7 @@ def run(ck):
         ki = allsteps[::4] + allsteps[-8:] if quick else allsteps
         for ch in [ab[i::n] for i in range(n)]:
             if ch:
-                tasks_abort.append({"size": size, "steps": ch})
+                tasks_abort.append({"size": size, "steps": ch, "retry": True})
         if not quick or size == 6:
             for ch in [ab[i::n] for i in range(0, n, 4)]:
                 tasks_abort.append({"size": size, "steps": ch[::4], "bad_at": 2 if size > 2 else 0})
@@ -704,6 +719,7 @@ def run(ck):
     ck.need("commit_orders", 3, "fewer than 3 distinct commit orders seen")
     ck.need("reader_reads", 20)
     ck.need("abort_points", 100)
+    ck.need("retries_after_abort", 20)
     ck.need("abort_raised", 50, "no abort landed inside the insert")
     ck.need("kill_points", 20)
     ck.need("syscall_fault_points", 10, "strace injection part did not run")
